@@ -13,11 +13,14 @@ CLAIM = ("The Lean model of parse.rs (Model/Parse.lean: terminal lexer incl. esc
          "tree with <= N nodes and random deeper ones, literals over the whole admitted character set incl. every backslash escape and "
          "dot runs (printed with the fewest escapes), descriptions with escaped quotes and backslashes, printed with the minimum of "
          "parentheses and under 3 random layouts (whitespace, newlines, form feeds, comments between tokens, ::=, no final `;`), must "
-         "parse back to the same tree. The theorems pp_parse / terminal_roundtrip over the parser model are open (Props/C05.lean proves "
-         "the facts about blanks and positions they rest on).")
-NOTE = ("Open: the print/parse round-trip theorems over Model/Parse.lean. Trusted: the Python printer (minimum parentheses, fewest "
+         "parse back to the same tree. Proved over the parser model, for every text (Props/C05.lean, Proofs/Lexer.lean): terminal_is_decoder "
+         "(the three-phase literal lexer = a character-by-character reference decoder, on every input), terminal_roundtrip / "
+         "terminal_roundtrip_escape_all (every literal over the permitted characters, printed with the fewest escapes or with every "
+         "special character escaped, reads back exactly), description_roundtrip (every description with quotes and backslashes escaped "
+         "reads back exactly), and the facts about blanks and comments. The theorem pp_parse for the operator ladder is open.")
+NOTE = ("Open: pp_parse (operator precedence / minimal parentheses) over Model/Parse.lean; the two lexer round trips are proved. Trusted: the Python printer (minimum parentheses, fewest "
         "escapes) — it is the specification of the surface syntax here — and vh's tree dump.")
-TECHNIQUE = "exact correspondence of the Lean parser model with the real parser (trees, spans, error locations) + print/parse round trip on the real parser"
+TECHNIQUE = "exact correspondence of the Lean parser model with the real parser (trees, spans, error locations) + Lean round-trip theorems for the literal and description lexers + print/parse round trip on the real parser"
 DESIGN_REF = "§3 C05"
 
 SPAN_RE = re.compile(r"\b\d+:\d+:\d+ ")
